@@ -201,6 +201,19 @@ pub fn exec_plan_main(sim: &dyn Sim, file: &Path, mode: &str, reseeds: u64) -> i
       }
     }
   }
+  // A run may depend on what the runs before it in the same child process left behind in process-wide state
+  // (a cache in a static, say). Such a replay document names the first run of its block: the runs from there up to
+  // the recorded one are executed first, in this process, exactly as the batch executed them.
+  if let Some(prefix) = doc.get("prefix").filter(|p| p.is_object()) {
+    if let Some(tier) = Tier::parse(pstr(&doc, "tier")) {
+      let seed = pu64(&doc, "seed");
+      for i in pu64(prefix, "from")..pu64(&doc, "run") {
+        emit(&format!("start {}", i));
+        let plan = sim.gen_plan(seed, i, tier);
+        let _ = sim.exec(&plan, &ExecMode::Fresh);
+      }
+    }
+  }
   let mut last = Outcome::default();
   for (n, m) in modes.iter().enumerate() {
     emit(&format!("start {}", n));
@@ -819,6 +832,23 @@ pub fn run_check(sim: &'static dyn Sim, opt: &BatchOptions) -> i32 {
     let _ = std::fs::create_dir_all(&dir);
     let path = dir.join(format!("{}-{}-{}.json", sanitize(sig), opt.seed, run));
     let _ = std::fs::write(&path, serde_json::to_string_pretty(&final_doc).unwrap_or_default());
+    // not reproduced by the run alone: with the runs of its block before it (process-wide state)?
+    let (reproduced, final_doc, final_viol) = if reproduced {
+      (true, final_doc, final_viol)
+    } else {
+      let mut d = doc0.clone();
+      d["prefix"] = json!({"from": (run / block) * block, "why": "the violation depends on state the process keeps between runs: the runs of the block before this one are executed first"});
+      let again = exec_isolated(sim, &d, "replay", 0, tz);
+      let ok = again.violation.as_ref().map(|v| v.signature == viol.signature && v.event_index == viol.event_index).unwrap_or(false);
+      if ok {
+        let _ = std::fs::write(&path, serde_json::to_string_pretty(&d).unwrap_or_default());
+        println!("note: run {} violates only after the runs {}..{} of its block (state kept by the process between runs); the replay file executes them first", run, (run / block) * block, run);
+        (true, d, viol.clone())
+      } else {
+        (false, final_doc, final_viol)
+      }
+    };
+    let _ = &final_doc;
     if reproduced {
       println!("VIOLATION property={} replay={}", sim.id(), path.display());
       println!("  rule={} signature={} event={} runs_with_this_signature={}", final_viol.rule, final_viol.signature, final_viol.event_index, list.len());
